@@ -110,7 +110,11 @@ def run_case(c):
         return {"skip": "model_vanishes (single-atom supercell under the sum rules)", "nontrivial": False}
     p2s = np.array(pr.p2s_map)
     fcin = np.array(fc if c["full"] else fc[p2s], dtype="double", order="C")
-    ph.force_constants = fcin.copy()
+    from vlib.gen.layout import ARRAY_KINDS, relayout as _rl
+
+    _frng = np.random.default_rng(c["seed"] + 11)
+    fc_held, _fckind = _rl(fcin, _frng, kind=ARRAY_KINDS[int(_frng.integers(len(ARRAY_KINDS)))])  # C / Fortran order (owning its data) / strided window / view: same numbers
+    ph.force_constants = fc_held
     dm = ph.dynamical_matrix
     lang = c["lang"]
     viol = []
@@ -244,6 +248,7 @@ def run_case(c):
     obs["class_" + c["fcclass"]] = 1
     obs["sym_precondition_ok"] = int(sym_ok)
     obs["lang_" + lang] = 1
+    obs["fclayout_" + _fckind] = 1
     for k_, v_ in _LAYOUT["seen"].items():
         obs["qlayout_" + k_] = v_
     return {"viol": viol, "nontrivial": nontrivial, "key": key, "evals": sum(v for k, v in obs.items() if k.startswith("n_")), "obs": obs,
